@@ -36,7 +36,9 @@ def run(ctx):
     th = ctx.tier == "thorough"
     texts = ["supra,§,", "1 CCH Unemployment Ins. Rep. 1", "Foo v. Bar, 1 U.S. 1 (1999). Id. at 5.", "1 U. S. 1; 1 U.S. 1; 1 Wall. 1",
              "See § 5 supra, at 3.", "id.,§", "Id. supra", "1 F. 2", "2 Cranch 1", "1 Tex. 1, 2 (1999)", "eyecite",
-             "Shapiro v. Thompson, 394 U. S. 618", "1 A. 2d 3; 1 A.2d 3", "1 Mass. App. Ct. 1; 1 Mass. 1"]
+             "Shapiro v. Thompson, 394 U. S. 618", "1 A. 2d 3; 1 A.2d 3", "1 Mass. App. Ct. 1; 1 Mass. 1",
+             # several candidate editions (their order must not depend on the hash seed), two sharing a short name
+             "1 Allen 1; 1 B.R. 1; 1 Col. 1; 1 Bailey 1", "1 Rutgers Race & L. Rev. 1", "5 S.W.2d 10; 1 Wash. 1; 1 Dall. 1"]
     for _ in range(120 if th else 30):
         texts.append(textgen.document(rng, hostile=rng.random() < 0.2))
     # court parentheticals: a full court string followed (in a later text) by a proper prefix of it, so that any
